@@ -507,7 +507,7 @@ _CTOKEN = re.compile(r'''
  | (?P<rp>\))
  | (?P<comma>,)
 ''', re.X)
-_CMAP = {'&&': '.and.', '||': '.or.', '!': '.not.', '!=': '/='}
+_CMAP = {'&&': '.and.', '||': '.or.', '!': '.cnot.', '!=': '/='}
 
 
 def clex(text):
